@@ -2,6 +2,7 @@
 
 PROP = {'technique': "Lean accepted-language and round-trip theorems (position-wise reading of the 72-byte name, uniqueness of netip's decimal spelling), refutation by witness for the 4in6 case; differential tie",
  'module': 'GolibsVerif.Theorems.C04',
+ 'modules': ['GolibsVerif.Theorems.C04', 'GolibsVerif.Theorems.C04Idna'],
  'namespace': 'GolibsVerif.C04',
  'rule': 'addresses (random, single non-zero byte at every position, 4in6, bad lengths) encoded and decoded in four spellings; ARPA names '
          "from a label grammar and near-canonical mutations of real PTR names (leading zeros, '+', 4/5 labels, 31/33 nibbles, two-char "
@@ -18,4 +19,6 @@ PROP = {'technique': "Lean accepted-language and round-trip theorems (position-w
                'accepts_only_canon is refuted by a machine-checked witness (ip6.arpa spelling of an IPv4-mapped address), recorded as a '
                'known finding; tie by differential correspondence on every run',
  'level_note': 'accepts_only_canon holds as accepts_only_canon_partial (result not IPv4-mapped) and accepts_only_canon_v4; trusted: Lean '
-               'kernel; correspondence (sampled); netip model; idna.ToASCII contract IDNA-1 (hypothesis hT of decode_encode)'}
+               'kernel; correspondence (sampled); netip model; idna.ToASCII contract IDNA-1 (hypothesis hT of decode_encode) is a theorem '
+               '(Idna.idna1_model) about the model Go/Idna.lean of idna.ToASCII, tied to the real function by the op std.idna of C03: '
+               'decode_encode_idna has no idna hypothesis (punycode encode/decode stay parameters, nothing assumed)'}
